@@ -164,7 +164,8 @@ fn small_values(thorough: bool) -> Vec<RV> {
     extra.push(RV::Bool(true));
     extra.push(RV::Bytes(vec![]));
     extra.push(RV::sym("-"));
-    for s in shapes(2, if thorough { 2 } else { 1 }) {
+    // (thorough: all context atoms in the flat two-leaf shapes; nested two-leaf shapes over A12)
+    for s in shapes(2, 1) {
         for a in &extra {
             for b in &extra {
                 v.push(s.build(&mut vec![a.clone(), b.clone()].into_iter()));
@@ -172,7 +173,15 @@ fn small_values(thorough: bool) -> Vec<RV> {
         }
     }
     if thorough {
-        let a = a12();
+        let a12v = a12();
+        for s in shapes(2, 2) {
+            for x in &a12v {
+                for y in &a12v {
+                    v.push(s.build(&mut vec![x.clone(), y.clone()].into_iter()));
+                }
+            }
+        }
+        let a = crate::domains::a5();
         for s in shapes(3, 2) {
             for x in &a {
                 for y in &a {
@@ -280,7 +289,7 @@ pub fn run(ctx: &Ctx) -> Report {
         let nv = vals.len() as u64;
         let sub = Sub::new(
             "all-pairs",
-            "every printer option set (576) x every compatible parser option set: from_str_custom(to_string_custom(v, p), r) == fold(p, r, v) for the context atoms, dialect-sensitive names and every two-leaf shape (thorough: over all context atoms and three-leaf shapes over 12 atoms); values whose names are not plain in the pairing are skipped (counted); non-trivial = the value was checked and either folds or is compound",
+            "every printer option set (576) x every compatible parser option set: from_str_custom(to_string_custom(v, p), r) == fold(p, r, v) for the context atoms, dialect-sensitive names and every two-leaf shape (thorough: flat two-leaf shapes over all context atoms, nested two-leaf shapes over A12, three-leaf shapes over 5 atoms); values whose names are not plain in the pairing are skipped (counted); non-trivial = the value was checked and either folds or is compound",
             &format!("{} pairings x {} values", pairs.len(), nv),
         );
         let accs = par_ranks(pairs.len() as u64, |rank, acc| {
